@@ -92,10 +92,10 @@ def drive(mh, mb, reads, **kw):
     res = {"raised": None, "reads_accepted": 0, "bound_violation": None, "reset": False}
     orig = ch.send_continue
 
-    def send_continue():
+    def send_continue(*a, **k):
         if ch.request.completed:
             res["reset"] = True
-        orig()
+        orig(*a, **k)
     ch.send_continue = send_continue
 
     def pump():
